@@ -136,6 +136,7 @@ func ZZVerif_C11_Tree() {
 	var rollups [4]common.Hash
 	lastRER := common.Hash{}
 	haveRER := false
+	var seenExitRoots []common.Hash
 	lastBlock := uint64(0)
 	for i := 0; i < k; i++ {
 		num := uint64(i + 1)
@@ -188,6 +189,10 @@ func ZZVerif_C11_Tree() {
 					er = newRollups[id-1]
 				}
 				if er != (common.Hash{}) && er != newRollups[id-1] {
+					for _, old := range seenExitRoots {
+						zzverif.Assume(er != old) // exit roots are fresh (see known finding C11-1)
+					}
+					seenExitRoots = append(seenExitRoots, er)
 					newRollups[id-1] = er
 					newLastRER, newHaveRER = zzRefRollupExitRoot(newRollups), true
 				}
@@ -267,4 +272,25 @@ func ZZVerif_C11_Tree() {
 		_, err := s.GetLastRollupExitRoot(ctx)
 		zzverif.Assert("no rollup exit root yet", errors.Is(err, db.ErrNotFound))
 	}
+}
+
+// ZZVerif_C11_ExitRootRevert (known finding C11-1): the exit root of a rollup goes A, B, A. The third update brings the rollup
+// exit tree back to a root that is already recorded; the node should record it (the tree must hold the last verified root).
+func ZZVerif_C11_ExitRootRevert() {
+	ctx := context.Background()
+	p := zzNewProcessor(zzverif.TempDB("l1info"))
+	a, b := common.Hash(zzverif.Hash("A")), common.Hash(zzverif.Hash("B"))
+	zzverif.Assume(a != b && a != common.Hash{} && b != common.Hash{})
+	for i, er := range []common.Hash{a, b, a} {
+		blk := sync.Block{Num: uint64(i + 1), Hash: zzverif.Hash("bh"), Events: []interface{}{Event{VerifyBatches: &VerifyBatches{
+			RollupID: 1, NumBatch: uint64(i + 1), ExitRoot: er, StateRoot: zzverif.Hash("sr"), Aggregator: zzverif.Addr("agg")}}}}
+		err := p.ProcessBlock(ctx, blk)
+		zzverif.Note("err", err)
+		zzverif.Assert("verify batches block processed (exit root returns to an earlier value)", err == nil)
+	}
+	s := &L1InfoTreeSync{processor: p}
+	rr, err := s.GetLastRollupExitRoot(ctx)
+	zzverif.Assert("root served", err == nil)
+	ler, err := s.GetLocalExitRoot(ctx, 1, rr.Hash)
+	zzverif.Assert("rollup 1 holds the last verified exit root", err == nil && ler == a)
 }
